@@ -292,7 +292,11 @@ pub struct Env {
 }
 
 pub fn mk_env() -> Env {
-    Env { s: Session::new(&["dif", "freeze", "iso_ext", "lists"]) }
+    let mut s = Session::new(&["dif", "freeze", "iso_ext", "lists"]);
+    if !s.consult("c11_touch(_).\n:- dynamic(c11t/1).\n", "c11") {
+        panic!("c11 support clauses failed to load");
+    }
+    Env { s }
 }
 
 pub fn check(env: &mut Env, case: &Case) -> Verdict {
@@ -309,12 +313,19 @@ pub fn check(env: &mut Env, case: &Case) -> Verdict {
     let k_expected = inner.k.unwrap();
     let vars: Vec<String> = (0..NVARS).map(|i| format!("X{i}")).collect();
     let vl = format!("[{}]", vars.join(","));
-    let goal = format!("Vs = {vl}, {}, copy_term(Vs, C0, G0), {}, copy_term(Vs, C1, G1), bb_get(c11k, K1), bb_get(c11b, B1)", pre.join(", "), probe_text(case.probe, &gs.join(", ")));
+    // S0, S1 are touched only by a call (in a compiled clause they stay unbound cells of the environment
+    // frame, i.e. *stack* variables, until the goal under the probe binds them); they must be unbound
+    // again afterwards
+    let goal = format!(
+        "c11_touch(S0), c11_touch(S1), Vs = {vl}, {}, copy_term(Vs, C0, G0), {}, copy_term(Vs, C1, G1), bb_get(c11k, K1), bb_get(c11b, B1), ((var(S0), var(S1)) -> SV = unbound ; SV = bound(S0, S1))",
+        pre.join(", "),
+        probe_text(case.probe, &format!("{}, S0 = a, S1 = f(S0, N0)", gs.join(", ")))
+    );
     // path 1: the goal as a query (variables live on the heap); path 2: the same goal as the body of
     // an assertz-compiled clause (variables are permanent variables in an environment frame, the
     // probes are compiled control constructs)
-    let o1 = env.s.ask(&goal, "r(C0,G0,C1,G1,K1,B1)");
-    let o2 = env.s.ask(&format!("retractall(c11t(_)), assertz((c11t(r(C0,G0,C1,G1,K1,B1)) :- {goal})), c11t(R0)"), "R0");
+    let o1 = env.s.ask(&goal, "r(C0,G0,C1,G1,K1,B1,SV)");
+    let o2 = env.s.ask(&format!("retractall(c11t(_)), assertz((c11t(r(C0,G0,C1,G1,K1,B1,SV)) :- {goal})), c11t(R0)"), "R0");
     let mut classes = vec![];
     if inner.bound_old {
         classes.push("bound-old-var");
@@ -335,6 +346,12 @@ pub fn check(env: &mut Env, case: &Case) -> Verdict {
       let verdict = match o {
         Outcome::Sols(v) if v.len() == 1 => {
             let T::Cmp(_, args) = &v[0] else { return Verdict::Discard("shape".into()) };
+            if args.len() != 7 {
+                return Verdict::Discard("shape".into());
+            }
+            if !args[6].eq_struct(&T::Atom("unbound".into())) {
+                return Verdict::fail(format!("stack-variable-not-reset:{}", classes.last().unwrap()), format!("{goal} :: S0/S1 after the probe: {}", args[6].text()));
+            }
             let before = T::Cmp("s".into(), vec![args[0].clone(), args[1].clone()]);
             let after = T::Cmp("s".into(), vec![args[2].clone(), args[3].clone()]);
             if !before.variant(&after) {
